@@ -128,6 +128,13 @@ def limiter_wall(face=1.664):
     return [(rmin, zmin), (rmin, zmax), (rmax, zmax), (rmax, 0.30), (face, 0.25), (face, -0.22), (rmax, -0.27), (rmax, zmin)]
 
 
+def baffle_wall(nose=1.43):
+    """the rectangular wall with an inboard baffle whose nose points at the lower X-point of the lsn family (1.5, -0.3): not convex, and the
+    lower part of the inner leg is hidden from the centre of the domain behind it (a line of sight from there crosses the wall twice)"""
+    rmin, rmax, zmin, zmax = 1.2, 1.8, -0.5, 0.5
+    return [(rmin, zmin), (rmin, -0.36), (nose, -0.30), (rmin, -0.24), (rmin, zmax), (rmax, zmax), (rmax, zmin)]
+
+
 def quiet():
     return contextlib.redirect_stdout(io.StringIO())
 
